@@ -112,7 +112,9 @@ def replay_file(path):
     if doc.get('kind') == 'noexc':
         reproduced = status == 'exception'
     else:
-        reproduced = clause in failed
+        # an intermediate cut obligation (`cut:` prefix) has no run-time counterpart: its
+        # counterexample is reproduced when a postcondition clause fails on the real code
+        reproduced = (clause in failed) or (clause.startswith('cut:') and bool(failed))
     return {'reproduced': bool(reproduced), 'status': status, 'failed_clauses': failed, 'exception': exc,
             'clauses_evaluated': [n for n, _ in ctx.results], 'inputs_missing': ctx.missing[:10]}
 
